@@ -17,8 +17,22 @@ pub struct Cfg {
 fn opt<T: std::fmt::Display>(o: Option<T>) -> String {
     match o { Some(v) => format!("{}", v), None => "none".into() }
 }
+/// `Neg` and `num_traits::Signed` of the signed portable integers against the native type (where the native operation does not overflow)
+macro_rules! signed_ext {
+    ("s", $P:ty, $N:ty, $p:expr, $q:expr, $a:expr, $b:expr) => {{
+        use num_traits::Signed;
+        let mut ok = true;
+        if let Some(rn) = $a.checked_neg() { let r: $N = (-$p).into(); ok &= r == rn; }
+        if let Some(rn) = $a.checked_abs() { let r: $N = Signed::abs(&$p).into(); ok &= r == rn; }
+        if $a.checked_sub($b).is_some() { let r: $N = Signed::abs_sub(&$p, &$q).into(); ok &= r == Signed::abs_sub(&$a, &$b); }
+        let r: $N = Signed::signum(&$p).into();
+        ok &= r == $a.signum() && Signed::is_positive(&$p) == $a.is_positive() && Signed::is_negative(&$p) == $a.is_negative();
+        ok
+    }};
+    ("u", $P:ty, $N:ty, $p:expr, $q:expr, $a:expr, $b:expr) => { true };
+}
 macro_rules! int_suite {
-    ($fname:ident, $P:ty, $N:ty, $be:expr, $n:expr, $sign:expr) => {
+    ($fname:ident, $P:ty, $N:ty, $be:expr, $n:expr, $sign:tt) => {
         fn $fname(cfg: &Cfg, rng: &mut Rng, out: &mut dyn Write) {
             let bytes_of = |x: $N| -> Vec<u8> { x.to_le_bytes().to_vec() };
             let codec = |x: $N, out: &mut dyn Write| {
@@ -67,6 +81,27 @@ macro_rules! int_suite {
                 let eq = p == q;
                 let nat = c == a.cmp(&b) && pc == Some(a.cmp(&b)) && eq == (p.to_bytes() == q.to_bytes()) && eq == (a == b);
                 writeln!(out, "PO {} {} {} cmp {} {} => {} eq={} nat={}", $be as u8, $n, $sign, hex(&bytes_of(a)), hex(&bytes_of(b)), match c { std::cmp::Ordering::Less => "lt", std::cmp::Ordering::Equal => "eq", _ => "gt" }, eq as u8, nat as u8).unwrap();
+                // the compound-assignment operators, `NumCast`, `Num::from_str_radix`, `Display` / `Debug` (native oracle only);
+                // the arithmetic ones only where the native operation does not overflow or divide by zero (those panic: `PO` lines)
+                let same = |r: $P, rn: $N| { let r: $N = r.into(); r == rn };
+                let mut ext = true;
+                if let Some(rn) = a.checked_add(b) { let mut t = p; t += q; ext &= same(t, rn); }
+                if let Some(rn) = a.checked_sub(b) { let mut t = p; t -= q; ext &= same(t, rn); }
+                if let Some(rn) = a.checked_mul(b) { let mut t = p; t *= q; ext &= same(t, rn); }
+                if let Some(rn) = a.checked_div(b) { let mut t = p; t /= q; ext &= same(t, rn); }
+                if let Some(rn) = a.checked_rem(b) { let mut t = p; t %= q; ext &= same(t, rn); }
+                ext &= <$P as num_traits::NumCast>::from(b).map(|v| { let n: $N = v.into(); n }) == <$N as num_traits::NumCast>::from(b);
+                ext &= <$P as num_traits::NumCast>::from(a as i64).map(|v| { let n: $N = v.into(); n }) == <$N as num_traits::NumCast>::from(a as i64);
+                ext &= <$P as num_traits::NumCast>::from(a as u64).map(|v| { let n: $N = v.into(); n }) == <$N as num_traits::NumCast>::from(a as u64);
+                ext &= <$P as num_traits::NumCast>::from(a as f64).map(|v| { let n: $N = v.into(); n }) == <$N as num_traits::NumCast>::from(a as f64);
+                ext &= format!("{}", p) == format!("{}", a) && format!("{:?}", p) == format!("{:?}", a);
+                for radix in [2u32, 10, 16] {
+                    let txt = match radix { 2 => format!("{:b}", b), 16 => format!("{:x}", b), _ => format!("{}", b) };
+                    ext &= <$P as num_traits::Num>::from_str_radix(&txt, radix).ok().map(|v| { let n: $N = v.into(); n }) == <$N as num_traits::Num>::from_str_radix(&txt, radix).ok();
+                }
+                ext &= <$P as num_traits::Num>::from_str_radix("zz", 10).is_err() && <$P as num_traits::Num>::from_str_radix("", 10).is_err();
+                ext &= signed_ext!($sign, $P, $N, p, q, a, b);
+                writeln!(out, "PX {} {} {} iext {} {} => nat={}", $be as u8, $n, $sign, hex(&bytes_of(a)), hex(&bytes_of(b)), ext as u8).unwrap();
             }
             // conversions from the integers containers use for lengths
             let args: Vec<u64> = vec![0, 1, 0x7f, 0x80, 0xff, 0x100, 0x7fff, 0x8000, 0xffff, 0x10000, 0x7fffffff, 0x80000000, 0xffffffff, 0x100000000, 0x7fffffffffffffff, 0x8000000000000000, u64::MAX, u64::MAX - 1];
@@ -174,6 +209,8 @@ pub fn run(cfg: &Cfg, out: &mut dyn Write) {
         let (p, q) = (Bool::from(a), Bool::from(b));
         let nat = bool::from(!p) == !a && bool::from(p & q) == (a & b) && bool::from(p | q) == (a | b) && bool::from(p ^ q) == (a ^ b)
             && p.as_bytes() == [a as u8] && (p == q) == (a == b) && p.cmp(&q) == a.cmp(&b) && std::mem::size_of::<Bool>() == 1 && <Bool as FlatBase>::ALIGN == 1 && Bool::default() == Bool::False;
+        let assign = { let mut t = p; t &= q; let o1 = bool::from(t) == (a & b); let mut t = p; t |= q; let o2 = bool::from(t) == (a | b); let mut t = p; t ^= q; o1 && o2 && bool::from(t) == (a ^ b) };
+        let nat = nat && assign && format!("{:?}", p) == format!("{:?}", if a { Bool::True } else { Bool::False });
         writeln!(out, "PB ops {} {} => stored={} nat={}", a as u8, b as u8, hex(p.as_bytes()), nat as u8).unwrap();
     } }
     for v in 0..=255u8 {
